@@ -9,7 +9,8 @@ PROPS_FILE = 'theories/Props/C09.v'
 THEOREM = 'C09_lifecycle'
 RULE = ('C08 cases plus start / kill / state / promise-value calls between frames and inside '
         'coroutine bodies (a body may target itself, also kill itself and return), kill '
-        'immediately followed by start weighted up, 4 % of the targets are non-generators; '
+        'immediately followed by start weighted up, 7 % of the targets are non-generators (None, int, str, list, list iterator, range, '
+        'generator function, hand-written iterator, map, zip, async coroutine object, lambda); '
         'coroutines are long-lived (restartable at any time), medium (restartable while they '
         'cannot have finished, so that restart + return + promise value occur) or short; at '
         'the end the harness drops all its references and reports which generators are still '
